@@ -11,8 +11,10 @@
 
 #include "fiber_manager.h"
 #include "mpmc_lifo.h"
+#include "fiber_verif.h"
 
 void fiber_mark_completed(fiber_t* the_fiber, void* result) {
+  FIBER_VERIF_POINT(FV_FIBER_FINISHING, the_fiber, 0);
   atomic_store_explicit(&the_fiber->result, result, memory_order_release);
 
   if (the_fiber->detach_state != FIBER_DETACH_DETACHED) {
@@ -87,6 +89,7 @@ fiber_t* fiber_create_no_sched(size_t stack_size,
     return NULL;
   }
 
+  FIBER_VERIF_POINT(FV_FIBER_CREATE, ret, 0);
   return ret;
 }
 
@@ -121,6 +124,7 @@ fiber_t* fiber_create_from_thread() {
     free(ret);
     return NULL;
   }
+  FIBER_VERIF_POINT(FV_FIBER_CREATE, ret, 1);
   return ret;
 }
 
